@@ -17,7 +17,9 @@ RULE = ("Case = (ordering in {random, sorted, reversed, alternating sign, consta
         "Bounds: |mean-exact| <= 4 n eps max|v|; |var-exact| <= 8 n eps kappa var with kappa = sqrt(1+mean^2/var) (constant streams: "
         "0 <= var <= 8 n eps mean^2); |smoothed-exact| <= 8 eps max|v| / alpha; all results finite, std real and = sqrt(var). Explainer "
         "level: IncrementalPFI / IncrementalSage runs whose losses carry a large common offset (1e6..1e12), float run vs exact-rational "
-        "twin with identical seeds: |delta importance| <= 16 (d+2) t eps max(|loss|, scale) after every call. Non-trivial: kappa >= 1e3 "
+        "twin with identical seeds: |delta importance| <= 16 (d+2) t eps max(|loss|, scale) after every call; QUIET TAIL: an active stream followed by "
+        "hundreds to thousands of constant observations (dynamic setting, alpha 0.3..0.9) so that the smoothed importances decay through the "
+        "subnormal range to zero - importance values, variances, both normalised views and the confidence bounds must stay finite throughout. Non-trivial: kappa >= 1e3 "
         "and n >= 1e3 (trackers) / offset >= 1e6 and >= 3 explained observations (explainers); distinct by case digest.")
 ASSUMPTIONS = ["the constants 4, 8, 8, 16 are this harness's reading of 'a small multiple' (calibrated with >= 8x head-room on the shipped code)",
                "|v| <= 1e17: no overflow domain"]
@@ -196,6 +198,76 @@ def run_explainer(case):
     return Result(True, nontrivial=off >= 1e6 and explained >= 3, labels=[case['cls'], f'offset={off:g}'])
 
 
+def run_quiet_tail(case):
+    """An active stream followed by a long CONSTANT tail (constant-then-jump, read backwards): with exponential smoothing the
+    importance values decay geometrically through the subnormal range down to zero.  Everything the explainer reports - importance
+    values, variances, both normalised views, the confidence bounds - must stay finite all the way (all inputs are finite)."""
+    from ixai.explainer import IncrementalPFI
+    from ixai.explainer.sage import IncrementalSage
+    from ixai.storage import IntervalStorage
+    from ixai.imputer import MarginalImputer
+    d, alpha = case['d'], case['alpha']
+    names = [f'f{i}' for i in range(d)]
+    w = case['weights']
+
+    def model(x):
+        return {'output': sum(w[i % len(w)] * x[n] for i, n in enumerate(names))}
+
+    def loss(y, p):
+        return (y - p['output']) ** 2
+    random.seed(case['seeds'][0])
+    np.random.seed(case['seeds'][1])
+    storage = IntervalStorage(size=case['k'], store_targets=False)
+    imputer = MarginalImputer(model, 'joint', storage)
+    cls = IncrementalPFI if case['cls'] == 'pfi' else IncrementalSage
+    ex = cls(model, loss, names, storage=storage, imputer=imputer, smoothing_alpha=alpha, dynamic_setting=True, n_inner_samples=1)
+    rs = random.Random(case['vseed'])
+    n_active, n_tail = case['active'], case['tail']
+    const = {n: 0.25 * (i + 1) for i, n in enumerate(names)}
+    smallest = None
+    for t in range(n_active + n_tail):
+        if t < n_active:
+            x = {n: rs.uniform(-2, 2) * case['scale'] for n in names}
+            y = rs.uniform(-1, 1) * case['scale']
+        else:
+            x, y = dict(const), 1.0
+        try:
+            ex.explain_one(x, y)
+        except Exception as e:
+            return Result(False, key=f'C20:quiet-tail:exception:{type(e).__name__}', detail=f'call {t + 1}: {e!r}')
+        if t < n_active or (t % 16 and t < n_active + n_tail - 40):
+            continue
+        views = {'importance': ex.importance_values, 'variance': ex.variances}
+        try:
+            views['normalised:sum'] = ex.get_normalized_importance_values(mode='sum')
+            views['normalised:delta'] = ex.get_normalized_importance_values(mode='delta')
+            views['bound'] = ex.get_confidence_bound(0.1)
+        except Exception as e:
+            return Result(False, key=f'C20:quiet-tail:exception:{type(e).__name__}', detail=f'call {t + 1}: {e!r}')
+        mags = [abs(float(v)) for v in views['importance'].values() if float(v) != 0.0]
+        if mags:
+            smallest = min(mags) if smallest is None else min(smallest, min(mags))
+        for what, dct in views.items():
+            for f, v in dct.items():
+                if not math.isfinite(float(v)):
+                    return Result(False, key=f'C20:quiet-tail:not-finite:{what.split(":")[0]}',
+                                  detail=(f'{case["cls"]} alpha={alpha}: after call {t + 1} ({t + 1 - n_active} constant observations) {what} of {f!r} '
+                                          f'is {v!r}; importance values {dict(views["importance"])!r}'))
+    sub = smallest is not None and smallest < 2.3e-308
+    return Result(True, nontrivial=sub, labels=[case['cls'], 'reached_subnormal' if sub else 'not_subnormal'])
+
+
+@st.composite
+def quiet_cases(draw):
+    alpha = draw(st.sampled_from([0.5, 0.3, 0.7, 0.9]))
+    # (1-alpha)^tail must pass 1e-308 .. 5e-324: tail ~ 745 / -ln(1-alpha)
+    tail = int(760 / -math.log(1 - alpha)) + 30
+    return {'cls': draw(st.sampled_from(['pfi', 'sage'])), 'd': draw(st.integers(2, 3)), 'alpha': alpha, 'k': draw(st.integers(1, 3)),
+            'weights': [draw(st.sampled_from([1.0, -0.5, 2.0, 0.75])) for _ in range(3)], 'active': draw(st.integers(4, 12)), 'tail': tail,
+            'scale': draw(st.sampled_from([1.0, 1e3, 1e-3])), 'vseed': draw(st.integers(0, 10 ** 6)),
+            'seeds': [draw(gen.seed32) % 2 ** 31, draw(gen.seed32) % 2 ** 31]}
+
+
 @st.composite
 def tracker_cases(draw, nmax):
     n = draw(st.sampled_from([10, 100, 1000, 2000, 5000, nmax, nmax // 2]))
@@ -214,7 +286,7 @@ def explainer_cases(draw):
     return {'cls': draw(st.sampled_from(['pfi', 'sage'])), 'cfg': cfg}
 
 
-SUBS = {'tracker': run_tracker, 'explainer': run_explainer}
+SUBS = {'tracker': run_tracker, 'explainer': run_explainer, 'quiet_tail': run_quiet_tail}
 
 
 def replay(sub, case):
@@ -248,4 +320,6 @@ def run(ctx):
 
     ctx.search('tracker', tracker_cases(1000000 if ctx.thorough() else 20000), rt, ctx.n(260, 2400))
     ctx.extra['worst_ratio_to_unit_bound'] = {k: round(v, 4) for k, v in worst.items()}
-    ctx.search('explainer', explainer_cases(), run_explainer, ctx.n(700, 16000))
+    if not ctx.search('explainer', explainer_cases(), run_explainer, ctx.n(700, 16000)):
+        return
+    ctx.search('quiet_tail', quiet_cases(), run_quiet_tail, ctx.n(16, 640), shrink=False)
